@@ -316,6 +316,59 @@ def refused_entries(g, counters, viol, t, data, files):
             compare(a, top, where + " [after all contexts]", viol, -1, "all")
 
 
+def reused_handlers(g, counters, viol, t, data, files):
+    """One context object used more than once: one after the other, and nested in itself (`with h: ... with h:`), with the
+    likelihood reassigned in between and exceptions on the way out. Each exit must give back what its entry found."""
+    from aspire import Aspire
+
+    xp = env.xp_of("numpy")
+    probe = MapProbe(t)
+    for pattern in ("sequential", "nested", "nested-raise", "reassigned-between", "nested-in-checkpoint-context"):
+        a = Aspire(log_likelihood=probe.log_likelihood, log_prior=probe.log_prior, dims=1, parameters=list(t.parameters), prior_bounds=t.prior_bounds,
+                   flow_backend="avnp", xp=xp, family="gauss", loc=[0.5], scale=[2.0], fixed=True)
+        a.fit(data)
+        pool = PoolDouble()
+        h = a.enable_pool(pool, close_pool=False, parallelize_prior=bool(g.random() < 0.5))
+        where = f"one pool handler object used twice: {pattern}"
+        top = snapshot(a)
+        counters["reused_handler_patterns_checked"] += 1
+        try:
+            if pattern == "sequential":
+                with h:
+                    a.sample_posterior(6, sampler="importance")
+                compare(a, top, where + " [after first use]", viol, 0, "Preused")
+                with h:
+                    pass
+            elif pattern == "reassigned-between":
+                with h:
+                    pass
+                a.log_likelihood = probe.log_likelihood_alt
+                top = snapshot(a)
+                with h:
+                    a.sample_posterior(6, sampler="importance")
+            elif pattern == "nested-in-checkpoint-context":
+                with a.auto_checkpoint(files["f1"], every=2):
+                    inner_entry = snapshot(a)
+                    with h:
+                        with h:
+                            pass
+                        mid = a.log_likelihood
+                    compare(a, inner_entry, where + " [inside the checkpoint context]", viol, 1, "Preused")
+            else:
+                with h:
+                    outer_view = snapshot(a)
+                    try:
+                        with h:
+                            if pattern == "nested-raise":
+                                raise Boom("inside the inner use")
+                    except Boom:
+                        pass
+                    compare(a, outer_view, where + " [after the inner exit]", viol, 1, "Preused")
+        except Exception as exc:  # noqa: BLE001
+            viol.append({"mech": "C19/reused-handler-raises", "detail": f"{where}: {type(exc).__name__}: {str(exc)[:200]}"})
+        compare(a, top, where + " [after all contexts]", viol, -1, "all")
+
+
 def run_case(case):
     from collections import Counter
 
@@ -337,6 +390,7 @@ def run_case(case):
         a0.fit(data)
         a0.sample_posterior(8, sampler="importance", checkpoint_path=files["seed"])
         refused_entries(g, counters, viol, t, data, files)
+        reused_handlers(g, counters, viol, t, data, files)
         for h in case["hists"]:
             before = len(viol)
             if run_history(h, g, counters, viol, t, data, files):
